@@ -179,7 +179,7 @@ PROPS = {
              "under trim=true is not an error (code, model and oracle agree).",
         assumptions=["literal codes fit the literal type"]),
     "C11": dict(
-        module="Flussab.Props.C11", modules=["Flussab.Props.C11", "Flussab.Props.TieWriter", "Flussab.Props.TieDimacsWrite", "Flussab.Props.TieAigerWrite", "Flussab.Props.TieBtor2Write"], engines=[("writer", 500, 8000, ""), ("writer", 480, 630, "scale")], release=True,
+        module="Flussab.Props.C11", modules=["Flussab.Props.C11", "Flussab.Props.TieWriter", "Flussab.Props.TieDimacsWrite", "Flussab.Props.TieAigerWrite", "Flussab.Props.TieAigerWriteDoc", "Flussab.Props.TieBtor2Write"], engines=[("writer", 500, 8000, ""), ("writer", 480, 630, "scale")], release=True,
         claim="DeferredWriter (fast path, cold path with split/fill/flush/write-through, flush, check_io_error, Drop "
               "with the panicked flag, buf_write_ptr+advance_unchecked, write::text::ascii_digits with itoap MAX_LEN) "
               "is modelled over a sink with arbitrary schedules and std's write_all loop. Theorems for all histories: "
@@ -248,7 +248,7 @@ PROPS = {
              "blanks, exactly the canonical text of the returned Line). Trusted: Lean kernel, harness, the independent reference lexer.",
         assumptions=["64-bit usize/isize"]),
     "C03": dict(
-        module="Flussab.Props.C03Cnf", modules=["Flussab.Props.C03Aiger", "Flussab.Props.C03AigerConverse", "Flussab.Props.C03Cnf", "Flussab.Props.C03Btor2", "Flussab.Props.TieDimacsWrite", "Flussab.Props.TieAigerWrite", "Flussab.Props.TieBtor2Write", "Flussab.Props.TieCnfToken", "Flussab.Props.TieCnfParser", "Flussab.Props.TieWcnfParser", "Flussab.Props.TieGcnfParser", "Flussab.Props.TieSatLog", "Flussab.Props.TieLineReader", "Flussab.Props.TieAigerToken", "Flussab.Props.TieBtor2Token", "Flussab.Props.TieBtor2Parser", "Flussab.Props.TieAigerHeader", "Flussab.Props.TieAigerNew", "Flussab.Props.TieAigerSections", "Flussab.Props.TieAigerBinSections", "Flussab.Props.TieAigerSymbols", "Flussab.Props.TieAigerParse"],
+        module="Flussab.Props.C03Cnf", modules=["Flussab.Props.C03Aiger", "Flussab.Props.C03AigerConverse", "Flussab.Props.C03Cnf", "Flussab.Props.C03Btor2", "Flussab.Props.TieDimacsWrite", "Flussab.Props.TieAigerWrite", "Flussab.Props.TieAigerWriteDoc", "Flussab.Props.TieBtor2Write", "Flussab.Props.TieCnfToken", "Flussab.Props.TieCnfParser", "Flussab.Props.TieWcnfParser", "Flussab.Props.TieGcnfParser", "Flussab.Props.TieSatLog", "Flussab.Props.TieLineReader", "Flussab.Props.TieAigerToken", "Flussab.Props.TieBtor2Token", "Flussab.Props.TieBtor2Parser", "Flussab.Props.TieAigerHeader", "Flussab.Props.TieAigerNew", "Flussab.Props.TieAigerSections", "Flussab.Props.TieAigerBinSections", "Flussab.Props.TieAigerSymbols", "Flussab.Props.TieAigerParse"],
         engines=[("aiger", 3000, 120000, "rt+layout"), ("cnf", 3000, 120000, "rt+layout"), ("btor2", 3000, 120000, "rt+rtbad+layout+kinds+valid"), ("btor2", 0, 0, "validx"), ("btor2", 96, 400, "scale:just_rt+sym+cmt+const+num+lines+ws_valid+valid"), ("cnf", 270, 600, "scale"), ("aiger", 40, 300, "scale:valid")], release=True,
         claim="Theorems over the parser and writer models: cnf_roundtrip (CNF/WCNF/GCNF, every literal type, both "
               "ignore_header settings: parse(write(h, cs)) = (h, cs, clean end) for every value in the explicit "
